@@ -274,6 +274,7 @@ func setFloors(r *vf.Run, prop string) {
 		r.Floor("probe.rejected", 100)
 		r.Floor("probe.control.accepted", 4)
 		r.Floor("publish.wrong-key.refused", 2)
+		r.Floor("forge.signature-to-publisher", 10)
 	case "C05":
 		r.Floor("publish.blocks", 20)
 		r.Floor("publish.conflict_dropped", 3)
